@@ -93,14 +93,15 @@ impl FileStack {
         let mut location = self.current_location.clone().expect("parsing file");
         location.push(include.path.clone());
         match fs::canonicalize(&location) {
-            Ok(path) => {
+            // A directory is not a file that can be included.
+            Ok(path) if !path.is_dir() => {
                 if !self.black_paths.contains(&path) {
                     debug!("adding local or absolute include `{}`", location.display());
                     self.stack.push(path);
                 }
                 Ok(())
             }
-            Err(_) => self.include_library(include),
+            _ => self.include_library(include),
         }
     }
 
@@ -117,7 +118,7 @@ impl FileStack {
 
                 let libpath = lib.path.join(&include.path);
                 debug!("searching for `{}` in `{}`", include.path, lib.path.display());
-                if let Ok(path) = fs::canonicalize(&libpath) {
+                if let Some(path) = fs::canonicalize(&libpath).ok().filter(|path| !path.is_dir()) {
                     debug!("adding include `{}` from directory", libpath.display());
                     self.stack.push(path);
                     return Ok(());
